@@ -51,6 +51,11 @@ func H_C16_sid_structure() {
 		subs[i] = uint32(vU8(subName(i)))
 		vAssume(subs[i] < 10)
 	}
+	// history: another SID with the same sub-authorities under a different authority was parsed before (the text depends
+	// on the bytes handed in, not on what was parsed earlier)
+	earlier := uint64(vU8("earlier.auth"))
+	vAssume(earlier < 10 && earlier != auth)
+	_ = ParseSIDFromBytes(buildSID(count, earlier, subs))
 	raw := buildSID(count, auth, subs)
 	keep := append([]byte{}, raw...)
 	got := ParseSIDFromBytes(raw)
